@@ -1039,7 +1039,12 @@ func hasGuardFacts(at ssa.Instruction) bool {
 // onlyCalledFrom: every static call of f in the repo sits in `root` or in a function that is itself only called from
 // root (depth d); at least one such call exists. A method the breaker's RecordSuccess delegates to is part of it.
 func onlyCalledFrom(c *Ctx, f, root *ssa.Function, d int) bool {
-	if f == root {
+	return onlyCalledFromAny(c, f, func(g *ssa.Function) bool { return g == root }, d)
+}
+
+// onlyCalledFromAny: as onlyCalledFrom, for a set of roots given by a predicate.
+func onlyCalledFromAny(c *Ctx, f *ssa.Function, isRoot func(*ssa.Function) bool, d int) bool {
+	if isRoot(f) {
 		return true
 	}
 	if d == 0 {
@@ -1063,7 +1068,7 @@ func onlyCalledFrom(c *Ctx, f, root *ssa.Function, d int) bool {
 			}
 			if cc := getCall(in); cc != nil && cc.StaticCallee() == f {
 				sites++
-				if !onlyCalledFrom(c, topParent(g), root, d-1) {
+				if !onlyCalledFromAny(c, topParent(g), isRoot, d-1) {
 					ok = false
 				}
 			}
